@@ -27,7 +27,11 @@ impl HashSet {
     #[verifier::external_body]
     pub fn insert(&mut self, k: TransactionId) -> (r: bool) ensures final(self)@ == old(self)@.insert(k), r == !old(self)@.contains(k) { unimplemented!() }
     #[verifier::external_body]
-    pub fn remove(&mut self, k: &TransactionId) -> (r: bool) ensures final(self)@ == old(self)@.remove(*k), r == old(self)@.contains(*k) { unimplemented!() }
+    pub fn remove(&mut self, k: &TransactionId) -> (r: bool) ensures final(self)@ == old(self)@.remove(*k), r == old(self)@.contains(*k) { unimplemented!() }    /// HashSet::drain: every element once, in an unspecified order; the set is left empty
+    #[verifier::external_body]
+    pub fn drain(&mut self) -> (r: Vec<TransactionId>)
+        ensures final(self)@ == Set::<TransactionId>::empty(), r@.to_set() == old(self)@, r@.no_duplicates(),
+    { unimplemented!() }
 }
 
 //@@ type file=fe2o3-amqp-types/src/transaction/mod.rs kind=struct name=Declare
@@ -65,8 +69,22 @@ impl ErrInto<CoordinatorError> for DischargeError {
 }
 
 /// requests the coordinator makes of its session
-pub enum SessReq { Allocate, Commit(TransactionId), Rollback(TransactionId) }
-pub struct SessionCtl { pub reqs: Ghost<Seq<SessReq>> }
+pub enum SessReq { Allocate, Commit(TransactionId), Rollback(TransactionId), Abort(TransactionId) }
+/// `gone`: the session's control channel is closed (the session has stopped)
+pub struct SessionCtl { pub reqs: Ghost<Seq<SessReq>>, pub gone: Ghost<bool> }
+/// SessionControl as the coordinator's Drop uses it (R11)
+pub enum SessionControl { AbortTransaction(TransactionId) }
+/// tokio::sync::mpsc::error::TrySendError: the bounded control queue is full right now, or the session is gone
+pub enum TrySendError { Full(SessionControl), Closed(SessionControl) }
+impl SessionCtl {
+    #[verifier::external_body]
+    pub fn try_send(&mut self, c: SessionControl) -> (r: Result<(), TrySendError>)
+        ensures
+            r is Ok ==> final(self).reqs@ == old(self).reqs@.push(SessReq::Abort(c->AbortTransaction_0)),
+            r is Err ==> final(self).reqs@ == old(self).reqs@,
+            final(self).gone == old(self).gone, (r is Err && r->Err_0 is Closed) == old(self).gone@,
+    { unimplemented!() }
+}
 pub mod session {
     use super::*;
     #[verifier::external_body]
@@ -158,6 +176,37 @@ impl TxnCoordinator {
         result is Err && result->Err_0 is TransactionError && r is Continue ==> final(self).inner.disposed@ == old(self).inner.disposed@.push((delivery_info, Some(true),
             DeliveryState::Rejected(Rejected { error: Some(TxnRejection { condition: result->Err_0->TransactionError_0 }) }))),                                // [C18.coordinator.rejection]
         final(self).inner.disposed@.len() <= old(self).inner.disposed@.len() + 1,
+//@@ end
+
+//@@ fn file=fe2o3-amqp/src/transaction/coordinator.rs impl=`impl Drop for TxnCoordinator` name=drop
+//@@ subst `self.txn_ids.drain()` => `__drained` rule=R9
+//@@ entry
+        let __drained = self.txn_ids.drain();       // the iterator expression of the `for`, hoisted (evaluated once, before the first iteration, as in the source)
+        let ghost __ids0: Seq<TransactionId> = __drained@;
+//@@ spec
+    ensures
+        ({
+            let new_reqs = final(self).inner.ctl.reqs@.skip(old(self).inner.ctl.reqs@.len() as int);
+            ||| forall|id: TransactionId| old(self).txn_ids@.contains(id) ==> new_reqs.contains(SessReq::Abort(id))
+            ||| final(self).inner.ctl.gone@
+        }),                                                                                                    // [C18.abandoned.all-aborted] when the control link goes away every transaction declared over it and not discharged is aborted -- all of them, however many, unless the session itself is gone: a transaction left behind stays live for ever, its posts are accepted and buffered instead of refused
+//@@ loop 0
+        invariant
+            __it0.seq().to_set() == old(self).txn_ids@, __it0.seq() == __ids0,
+            self.inner.ctl.gone == old(self).inner.ctl.gone,
+            self.inner.ctl.reqs@ =~= old(self).inner.ctl.reqs@ + Seq::new(__it0.index@ as nat, |k: int| SessReq::Abort(__it0.seq()[k])),
+//@@ exit
+        proof {
+            let n0 = old(self).inner.ctl.reqs@.len() as int;
+            let new_reqs = self.inner.ctl.reqs@.skip(n0);
+            let ids = __ids0;
+            assert(new_reqs =~= Seq::new(ids.len(), |k: int| SessReq::Abort(ids[k])));
+            assert forall|id: TransactionId| old(self).txn_ids@.contains(id) implies new_reqs.contains(SessReq::Abort(id)) by {
+                assert(ids.to_set().contains(id));
+                let k = choose|k: int| 0 <= k < ids.len() && ids[k] == id;
+                assert(new_reqs[k] == SessReq::Abort(id));
+            }
+        }
 //@@ end
 }
 
